@@ -727,6 +727,33 @@ namespace pl
         return p;
     }
 
+    // flips boolean planner parameters (range suggestion "0,1") with the given probability each; returns what was changed.
+    // "intermediate_states" is left alone: it changes which oracle class a planner belongs to (registry entry RRT-intermediate)
+    inline std::string flipBoolParams(const ob::PlannerPtr &p, Rng &rng, double prob)
+    {
+        std::string changed;
+        std::vector<std::string> names;
+        p->params().getParamNames(names);
+        std::sort(names.begin(), names.end());
+        for (auto &n : names)
+        {
+            if (n == "intermediate_states") continue;
+            auto &gp = p->params()[n];
+            if (gp.getRangeSuggestion() != "0,1") continue;
+            if (!rng.coin(prob)) continue;
+            std::string cur = gp.getValue();
+            std::string nv = (cur == "1" || cur == "true") ? "0" : "1";
+            try
+            {
+                if (p->params().setParam(n, nv)) changed += (changed.empty() ? "" : ",") + n + "=" + nv;
+            }
+            catch (const std::exception &)
+            {
+            }
+        }
+        return changed;
+    }
+
     // evaluation-counting termination condition; thread safe
     struct EvalPTC
     {
